@@ -39,8 +39,8 @@ CASES = [
       "                           self._one_step_with_dense_TimeIndep(t0,\n                                                    self.dense_time.length,",
       "                           self._one_step_with_dense_TimeIndep(t0,\n                                                    self.dense_time.length-1,"),
     m("apply contracts rho from the left", "C08-E",
-      "                oper_ven.data = numpy.tensordot(self.data[ti, :, :, :, :],\n                                                target.data)",
-      "                oper_ven.data = numpy.tensordot(target.data,\n                                                self.data[ti, :, :, :, :])"),
+      "                oper_ven.data = numpy.tensordot(self.data[ti, :, :, :, :],\n                                                tdata)",
+      "                oper_ven.data = numpy.tensordot(tdata,\n                                                self.data[ti, :, :, :, :])"),
     t("recurrence via einsum", "                numpy.tensordot(Udt, self.data[ti-1,:,:,:,:])        ",
       "                numpy.einsum('abcd,cdef->abef', Udt, self.data[ti-1,:,:,:,:])        "),
     t("tensordot with explicit default axes", "            Udt = numpy.tensordot(Ut1, Udt)", "            Udt = numpy.tensordot(Ut1, Udt, axes=2)"),
